@@ -127,6 +127,23 @@ fn bump(v: &RVal, up: bool) -> RVal {
                 RVal::Time(*h, *m, *s, n.saturating_sub(1))
             }
         }
+        RVal::DateTime(d) if d.nanos % 2 == 0 => {
+            // the nearest neighbours: a quarter millisecond / one nanosecond apart
+            let mut d = d.clone();
+            let step: i64 = if d.nanos % 4 == 0 { 250_000 } else { 1 };
+            let n = d.nanos as i64 + if up { step } else { -step };
+            if n < 0 {
+                d.secs -= 1;
+                d.nanos = (n + 1_000_000_000) as u32;
+            } else if n >= 1_000_000_000 {
+                d.secs += 1;
+                d.nanos = (n - 1_000_000_000) as u32;
+            } else {
+                d.nanos = n as u32;
+            }
+            d.offset = crate::refimpl::zones::offset_at(&crate::refimpl::zones::zone_by_id(&d.tz).unwrap().tz, d.secs);
+            RVal::DateTime(d)
+        }
         RVal::DateTime(d) => {
             let mut d = d.clone();
             d.secs += if up { 1 } else { -1 };
@@ -391,6 +408,24 @@ pub fn check_case(c: &FCase, rec: &mut Rec) -> Verdict {
                 return Verdict::fail(format!("C07:grid-filter-first:{ks}"), format!("filter `{text}`: first match differs"));
             }
             rec.class("grid:filter_all-compared");
+            // a grid whose column list does not name every row tag (rows and columns are independent public fields; the
+            // Hayson decoder returns such grids): which rows a filter selects does not depend on the column list
+            {
+                let mut partial = Grid::make_from_dicts(c.records.iter().map(build_dict).collect());
+                let keep = partial.columns.len() / 2;
+                partial.columns.truncate(keep);
+                let got = partial.filter_all(&lib).len();
+                if got != want.len() {
+                    return Verdict::fail(
+                        format!("C07:grid-filter_all:partial-columns:{ks}"),
+                        format!("filter `{text}`: with only {keep} of its columns declared the grid yields {got} rows, the semantics select {}", want.len()),
+                    );
+                }
+                partial.columns.clear();
+                if partial.filter_all(&lib).len() != want.len() || partial.filter(&lib).is_some() != !want.is_empty() {
+                    return Verdict::fail(format!("C07:grid-filter_all:no-columns:{ks}"), format!("filter `{text}`: a grid without declared columns selects differently"));
+                }
+            }
             // the same rows twice over (a grid may hold equal rows, and rows that share an `id`): every selected row
             // is selected each time it occurs, in order
             let doubled: Vec<Dict> = c.records.iter().chain(c.records.iter()).map(build_dict).collect();
